@@ -207,8 +207,8 @@ let cmd_vcd (args : string list) : string =
     (match m with
      | ["st"] -> load_all tpes (get (st ()))
      | ["mt"; t; c] -> load_all tpes (get (mt (int_of_string t) (int_of_string c)))
-     | ["rd"] | ["rb"] -> load_all tpes (get (rd ()))
-     | ["hc"] | ["hp"] -> load_all tpes (get (rd ())) ^ bl
+     | ["rd"] | ["rb"] | ["rbc"; _] -> load_all tpes (get (rd ()))
+     | ["hc"] | ["hp"] | ["hbc"; _; _] -> load_all tpes (get (rd ())) ^ bl
      | ["hf"; "0"] -> load_all tpes (get (st ())) ^ bl
      | ["hf"; "1"] -> load_all tpes (get (mt 4 0)) ^ bl
      | _ -> "BADMODE")
@@ -252,10 +252,10 @@ let hier_ops_of (ops : string) : Hierarchy.hier_op list =
     match Stdlib.String.split_on_char ':' op with
     | ["S"; fl; nm; comp; tpe] ->
       Hierarchy.HScope (bytes_of_hex nm, (if comp = "~" then None else Some (bytes_of_hex comp)),
-                        n_of_int (int_of_string tpe), fl = "1")
+                        n_of_int (int_of_string tpe), None, fl = "1")
     | ["V"; nm; tpe; dir; enc; idx; sg] ->
       Hierarchy.HVar (bytes_of_hex nm, n_of_int (int_of_string tpe), n_of_int (int_of_string dir),
-                      sig_enc_of enc, parse_index idx, nat_of_int (int_of_string sg))
+                      sig_enc_of enc, parse_index idx, nat_of_int (int_of_string sg), None)
     | ["P"] -> Hierarchy.HPop
     | _ -> failwith ("bad hier op " ^ op)) (split_on ';' ops)
 
